@@ -11,7 +11,7 @@ from pyvc import ground
 from specs.common import EventWorld
 
 PROP = "C10"
-GROUNDABLE = False
+GROUNDABLE = True
 BATTERY = "c10_battery.py"
 POLLING = "watchdog/observers/polling.py"
 SNAP = "watchdog/utils/dirsnapshot.py"
